@@ -92,9 +92,9 @@ EXPECT = {"denied": ("ERR_ACCESS_DENIED", 403), "denied-ext": ("ERR_ACCESS_DENIE
           "zero": ("ERR_ZERO_SIZE_OBJECT", 502), "oic": ("ERR_ONLY_IF_CACHED_MISS", 504), "badresp": ("ERR_INVALID_RESP", 502),
           "mgr": ("ERR_INVALID_URL", 404), "mgrpw": ("ERR_CACHE_MGR_ACCESS_DENIED", 401), "loop": ("ERR_ACCESS_DENIED", 403),
           "badcl": ("ERR_INVALID_REQ", 400), "dns": ("ERR_DNS_FAIL", 503), "redir": ("302", 302), "redir-auth": ("302", 302)}
-SAFE_META = ["'&", "&'", "'", "&", "'&;", "&amp;'", "''&&", "&#60;'"]
+SAFE_META = ["'&", "&'", "'", "&", "'&;", "&amp;'", "''&&", "&lt;'"]       # no '#': a fragment is cut off the URL
 HOSTILE_META = ["<b>", "<script>alert(1)</script>", "\"><img src=x>", "<'\"&>", "a\"b", "<!--", "'><&\""]
-HDR_META = SAFE_META + HOSTILE_META + ["\x7f\xe9<", "\t<b>\t"]
+HDR_META = SAFE_META + HOSTILE_META + ["\x7f\xe9<", "\t<b>\t", "&#60;'"]
 
 
 def gen_scenarios(rng, n):
@@ -141,7 +141,7 @@ def plan(s, orgport, sqport):
     elif kind in ("denied-auth", "redir-auth"):
         path = "/%s/needauth/%s/%s" % (rid, "denyme" if kind == "denied-auth" else "redirme", mU)
         user = mA
-        markers["A"] = mA
+        markers["A"] = mA.lower()          # auth_param basic casesensitive off: the user name is lower-cased
     elif kind == "need-auth":
         path = "/%s/needauth/%s" % (rid, mU)
     elif kind == "custom":
@@ -191,11 +191,12 @@ def plan(s, orgport, sqport):
     port = host.rsplit(":", 1)[1] if ":" in host else "80"
     packed = "%s %s HTTP/1.1\r\n" % (method, path) + "".join(
         "%s: %s\r\n" % (n, "** NOT DISPLAYED **" if n == "Proxy-Authorization" else v.strip(" \t")) for n, v in hs) + "\r\n"
-    env = {"req": "1" if has_req else "0", "c": EXPECT[kind][0] if not kind.startswith("redir") else "ERR_VERIF_REDIR"}
+    env = {"req": "1" if has_req else "0", "w": "webmaster", "s": _state.get("appname", ""), "c": EXPECT[kind][0] if not kind.startswith("redir") else "ERR_VERIF_REDIR"}
     if has_req:
         env.update({"M": method, "Hu": hostname, "P": scheme, "p": port, "R": packed, "Rp": path, "U": url, "u": url, "url": url})
         if user is not None:
-            env["a"] = user
+            env["a"] = user.lower()
+        env["dump"] = "HTTP Request:\r\n" + packed        # the part of ErrorState::Dump's text that carries client bytes
     else:
         env["url"] = url
     return {"raw": raw, "env": env, "markers": markers, "method": method}
@@ -284,7 +285,7 @@ def bad_renderings(text, markers, deny):
         i = m.lower().index("x") + 1
         j = m.lower().rindex("y")
         head, tail = m[:i].encode("latin1"), m[j:].encode("latin1")
-        if which == "D":
+        if which in ("D", "A"):
             head, tail = head.lower(), tail.lower()
         pos = 0
         while True:
@@ -316,6 +317,8 @@ def _one(args):
     if not fin:
         return "noreply"
     r = fin[0]
+    if r.get("Server"):
+        _state["appname"] = r.get("Server")
     xe = (r.get("X-Squid-Error") or "-").split(" ")[0]
     deny = r.status == 302
     text = (r.get("Location") or "").encode("latin1") if deny else r.body
